@@ -1,7 +1,7 @@
 #!/bin/bash
 # Run checks against a scratch copy of /repo with a patch applied (seeded-change experiments).
 # usage: tools/mutant.sh <patch.diff> <check-id> [tier]      (never touches /repo itself)
-S=/tmp/verif-scratch
+S=${VERIF_SCRATCH:-/tmp/verif-scratch}
 set -e
 mkdir -p $S
 if [ ! -d $S/repo ]; then git -C /repo worktree add -q --detach $S/repo HEAD; fi
